@@ -458,7 +458,7 @@ structure WfCtx where
 
 mutual
 /-- No rejected form; every `break`/`continue` has a matching enclosing loop in the same
-function body. -/
+function body; a parallel `let` binds pairwise distinct names. -/
 def wf : WfCtx → Expr → Bool
   | _, .int _ | _, .bool _ | _, .str _ | _, .nilLit | _, .sym _ => true
   | c, .arr es => wfList c es
@@ -469,7 +469,10 @@ def wf : WfCtx → Expr → Bool
   | c, .cond arms d => wfArms c arms && wf c d
   | c, .and_ es => wfList c es
   | c, .or_ es => wfList c es
-  | c, .let_ _ bs body => wfBinds c bs && wfList c body
+  | c, .let_ seq bs body =>
+    -- a parallel `let` binds pairwise distinct names (a repeated name is outside the domain: the
+    -- implementation binds the last name first, a reference reading has no canonical order)
+    (seq || decide ((bs.map (·.1)).Nodup)) && wfBinds c bs && wfList c body
   | c, .newScope es => wfList c es
   | c, .for_ l i t s body =>
     let c' := { c with loops := l :: c.loops }
